@@ -278,6 +278,11 @@ def reAdd (st : State) (q : Quota) : State :=
 def resetAll (s : State) : State :=
   (s.quotas.filter fun q => q.name != rootName).foldl reAdd { s with quotas := s.quotas.map clearQ }
 
+/-- `updateQuotaInfoFromRemote`: max, min, allow-lent and is-parent are taken from the new object (parent unchanged). -/
+def quotaMeta (s : State) (n : Nat) (isParent lent : Bool) (mx mn : RL) : State :=
+  { s with quotas := s.quotas.map fun g =>
+      if g.name = n then { g with max := mx, min := mn, isParent := isParent, lent := lent } else g }
+
 /-- `OnQuotaAdd` / `OnQuotaUpdate` → `UpdateQuota`: unknown group ⇒ add; meta (parent, is-parent, allow-lent)
     unchanged ⇒ max/min only; parent changed ⇒ re-parent (whatever else changed); otherwise
     `updateQuotaInfoFromRemote` + `resetQuotaNoLock`. -/
@@ -287,8 +292,7 @@ def quotaSet (s : State) (n parent : Nat) (isParent lent : Bool) (mx mn : RL) : 
   | some q =>
     if q.parent = parent ∧ q.isParent = isParent ∧ q.lent = lent then quotaMaxMin s n mx mn
     else if q.parent ≠ parent then reparent s q parent isParent lent mx mn
-    else resetAll { s with quotas := s.quotas.map fun g =>
-                      if g.name = n then { g with max := mx, min := mn, isParent := isParent, lent := lent } else g }
+    else resetAll (quotaMeta s n isParent lent mx mn)
 
 /-- `RefreshRuntime` wrote a new `CalculateInfo.Runtime` (value supplied by the environment). -/
 def setRuntime (s : State) (n : Nat) (r : RL) : State :=
